@@ -387,6 +387,15 @@ def _eval_roundtrip(case, out, acc=None, tmpdir=None):
         o = CryptContext()
         if guarded("load(context)", lambda: o.load(ctx)) is None:
             cmp(o, "load(context)")
+        # ... and the lists the caller passed IN stay the caller's too: editing them after construction changes nothing
+        if not custom:
+            src = {k: (list(v) if isinstance(v, list) else v) for k, v in materialize(cfg)[0].items()}
+            mine = guarded("CryptContext(**source)", lambda: CryptContext(**src))
+            if mine is not None:
+                for v in src.values():
+                    if isinstance(v, list):
+                        v.append("no_such_scheme")
+                cmp(mine, "in-place edit of the lists passed to the constructor")
         # the exported dict is the caller's: editing it in place (its list values) must not reach into the context,
         # and an update with the edited (now invalid) export must fail without leaving a trace
         if not custom:
